@@ -184,6 +184,9 @@ def get_crop_item_from_points(points, wcs, crop_by_values, keepdims):
             # If returned value is a 0-d array, convert to a length-1 tuple.
             if isinstance(point_array_indices, np.ndarray) and point_array_indices.ndim == 0:
                 point_array_indices = (point_array_indices.item(),)
+            else:
+                # Convert from scalar arrays to scalars
+                point_array_indices = tuple(np.asarray(a).item() for a in point_array_indices)
         for axis, index in zip(array_axes_with_input, point_array_indices):
             combined_points_array_idx[axis] = combined_points_array_idx[axis] + [index]
     # Define slice item with which to slice cube.
